@@ -542,6 +542,10 @@ def hdr_len_proof(repo, ci):
 MAYBE_NULL = {"strchr", "strrchr", "strstr", "memchr", "strpbrk", "strtok", "getenv"}
 
 
+DEREF_ARGS = {"sscanf", "strlen", "strcmp", "strncmp", "strcpy", "strncpy", "atoi", "atol", "strtol", "strtoul", "memcpy",
+              "memcmp", "strcat", "strdup", "printf", "sprintf", "snprintf", "osmo_strlcpy"}
+
+
 def r6_c_null(L):
     from cfront import TU, CCFG, kids, kind, strip, walk, ctext, calls_to, call_args, expr_guards
     tu = TU(L.repo, "trxcon", "src/trx_if.c", L=L)
@@ -565,6 +569,33 @@ def r6_c_null(L):
                 r = strip(kids(n)[-1], casts=True)
                 if kind(r) == "CallExpr" and ctext(kids(r)[0]) in MAYBE_NULL:
                     cand[n.get("name")] = (ctext(kids(r)[0]), n)
+        # results of may-return-NULL functions used on the spot (no variable, hence no possible NULL test)
+        for n in walk(tu.body(f)):
+            if kind(n) != "CallExpr" or ctext(kids(n)[0]) not in MAYBE_NULL:
+                continue
+            par, child = tu.parent.get(id(n)), n
+            while par is not None and kind(par) in ("ImplicitCastExpr", "CStyleCastExpr", "ParenExpr"):
+                child, par = par, tu.parent.get(id(par))
+            if par is None:
+                continue
+            pk, use = kind(par), None
+            if pk == "BinaryOperator" and par.get("opcode") in ("+", "-"):
+                other = [x for x in kids(par) if x is not child]
+                if not (par.get("opcode") == "-" and other and "*" in strip(other[0]).get("type", {}).get("qualType", "")):
+                    use = "offset `%s`" % ctext(par)[:60]
+            elif pk == "ArraySubscriptExpr" and kids(par)[0] is child:
+                use = "subscript `%s`" % ctext(par)[:60]
+            elif pk == "UnaryOperator" and par.get("opcode") == "*":
+                use = "dereference `%s`" % ctext(par)[:60]
+            elif pk == "MemberExpr":
+                use = "member access `%s`" % ctext(par)[:60]
+            elif pk == "CallExpr" and kids(par)[0] is not child and ctext(kids(par)[0]) in DEREF_ARGS:
+                use = "argument of %s()" % ctext(kids(par)[0])
+            if use is None:
+                continue
+            n_ptr += 1
+            L.ob("C14.R6", F, fname, "result of %s(...) may be NULL and is used without a test: %s" % (ctext(kids(n)[0]), use),
+                 "stored and tested against NULL before use", "used directly", False, tu.line(n))
         for p, (cal, asg) in cand.items():
             n_ptr += 1
             # uses: p + k, p[k], *p, p->x
@@ -622,6 +653,144 @@ def r6_c_null(L):
                      "< sizeof(buf)", k, 0 <= k < ext, tu.line(n))
 
 
+def _none_crash_use(n):
+    """n: a Load of an optional field `self.X`. Description of the use if it raises when the field is None
+    (attribute access, subscript, len()/int()/abs(), arithmetic, ordering comparison, numeric format conversion),
+    None if the use is harmless (identity/equality/truth test, %s / {} formatting, passing the value on)."""
+    import re
+    par = getattr(n, "_parent", None)
+    if isinstance(par, ast.Attribute) and par.value is n:
+        return "attribute access `%s`" % canon(par)
+    if isinstance(par, ast.Subscript) and par.value is n:
+        return "subscript `%s`" % canon(par)[:40]
+    if isinstance(par, ast.Call) and n in par.args and canon(par.func) in ("len", "int", "abs", "float", "hex", "bin", "range"):
+        return "%s() of the field" % canon(par.func)
+    if isinstance(par, ast.Compare):
+        ops = par.ops
+        if all(isinstance(o, (ast.Is, ast.IsNot, ast.Eq, ast.NotEq, ast.In, ast.NotIn)) for o in ops):
+            return None
+        return "ordering comparison `%s`" % canon(par)[:40]
+    if isinstance(par, ast.UnaryOp) and isinstance(par.op, (ast.USub, ast.UAdd, ast.Invert)):
+        return "arithmetic `%s`" % canon(par)[:40]
+    if isinstance(par, ast.Tuple):
+        gp = getattr(par, "_parent", None)
+        if isinstance(gp, ast.BinOp) and isinstance(gp.op, ast.Mod) and gp.right is par:
+            par_fmt, idx = gp, par.elts.index(n)
+        else:
+            return None
+    elif isinstance(par, ast.BinOp) and isinstance(par.op, ast.Mod) and par.right is n:
+        par_fmt, idx = par, 0
+    elif isinstance(par, ast.BinOp):
+        if isinstance(par.op, ast.Mod) and par.left is n:
+            return "arithmetic `%s`" % canon(par)[:40]
+        if isinstance(par.op, ast.Add) and isinstance(par.left if par.right is n else par.right, (ast.Constant, ast.JoinedStr)):
+            return "concatenation `%s`" % canon(par)[:40]
+        return "arithmetic `%s`" % canon(par)[:40]
+    elif isinstance(par, ast.FormattedValue):
+        if par.format_spec is None:
+            return None
+        spec = canon(par.format_spec)
+        return "format spec %s" % spec if re.search(r"[dxXobeEfFgGn%c]", spec) else None
+    else:
+        return None
+    if not (isinstance(par_fmt.left, ast.Constant) and isinstance(par_fmt.left.value, str)):
+        return "formatting with a non-literal template"
+    convs = re.findall(r"%[-#0 +]*\d*(?:\.\d+)?([diouxXeEfFgGcrsa%])", par_fmt.left.value)
+    convs = [c for c in convs if c != "%"]
+    if idx >= len(convs):
+        return "format argument without conversion"
+    return None if convs[idx] in "rsa" else "numeric conversion %%%s" % convs[idx]
+
+
+def _expr_none_guards(n):
+    """literals established by short-circuit evaluation inside the expression that contains n"""
+    out = set()
+    child, par = n, getattr(n, "_parent", None)
+    while par is not None and isinstance(par, ast.expr):
+        if isinstance(par, ast.BoolOp):
+            i = next((k for k, v in enumerate(par.values) if v is child), None)
+            if i is not None:
+                for v in par.values[:i]:
+                    for t, p_ in literals(v, isinstance(par.op, ast.And)):
+                        out.add((t, p_))
+        elif isinstance(par, ast.IfExp) and child is not par.test:
+            for t, p_ in literals(par.test, child is par.body):
+                out.add((t, p_))
+        child, par = par, getattr(par, "_parent", None)
+    return out
+
+
+def r9_desc_total(L, repo):
+    """R9: the header-description helpers are total. They are called from the log lines of the datagram path, in
+    particular from the `except ValueError` handler of DATAInterface.send_msg, i.e. exactly for messages that did NOT
+    validate, whose optional fields may still be None (e.g. no modulation matches the burst length). An exception
+    raised there escapes the handler into the clock thread. Every use of an optional field that raises on None must
+    be dominated by a not-None test of that field."""
+    F = rel("data_msg")
+    n_uses, n_fns, all_opt = 0, 0, set()
+    for cname in ("Msg", "TxMsg", "RxMsg"):
+        ci = repo.need_class("data_msg", cname)
+        optional = set()
+        for c in repo.mro(ci):
+            for an, av in c.attrs.items():
+                if isinstance(av, ast.Constant) and av.value is None:
+                    optional.add(an)
+            init = c.methods.get("__init__")
+            if init is None:
+                continue
+            a_ = init.args
+            for p_, d in zip(a_.args[len(a_.args) - len(a_.defaults):], a_.defaults):
+                if isinstance(d, ast.Constant) and d.value is None:
+                    optional.add(p_.arg)
+            for st in ast.walk(init):
+                if isinstance(st, ast.Assign) and isinstance(st.value, ast.Constant) and st.value.value is None:
+                    for t in st.targets:
+                        if isinstance(t, ast.Attribute) and canon(t.value) == "self":
+                            optional.add(t.attr)
+        # attributes assigned from a function that can return None (e.g. mod_type = Modulation.pick_by_bl(...))
+        for m in repo.tk_modules():
+            for st in ast.walk(m.tree):
+                if isinstance(st, ast.Assign) and isinstance(st.value, ast.Call) and isinstance(st.value.func, ast.Attribute):
+                    cal = st.value.func
+                    tgt_cls = repo.cls(m, cal.value.id) if isinstance(cal.value, ast.Name) else None
+                    if tgt_cls is None:
+                        continue
+                    c2, m2 = repo.find_method(tgt_cls, cal.attr)
+                    if m2 is None or not any(isinstance(r, ast.Return) and (r.value is None or (
+                            isinstance(r.value, ast.Constant) and r.value.value is None)) for r in ast.walk(m2)):
+                        continue
+                    for t in st.targets:
+                        if isinstance(t, ast.Attribute):
+                            optional.add(t.attr)
+        fd = ci.methods.get("desc_hdr")
+        if fd is None:
+            if cname == "Msg":
+                raise AnalysisError("data_msg.Msg.desc_hdr vanished")
+            continue
+        fn = "%s.desc_hdr" % cname
+        L.fn(F, fn)
+        n_fns += 1
+        all_opt |= optional
+        cfg = CFG(fd)
+        for n in ast.walk(fd):
+            if not (isinstance(n, ast.Attribute) and isinstance(n.ctx, ast.Load) and canon(n.value) == "self"
+                    and n.attr in optional):
+                continue
+            use = _none_crash_use(n)
+            if use is None:
+                continue
+            n_uses += 1
+            node = cfg.node_of(n)
+            lits = set(guard_literals(cfg, node)) | _expr_none_guards(n)
+            key = "None is self.%s" % n.attr
+            ok = (key, False) in lits or ("self.%s" % n.attr, True) in lits
+            L.ob("C14.R9", F, fn, "optional field `%s`: %s is reached only when the field is not None" % (n.attr, use),
+                 "guarded by `self.%s is not None`" % n.attr, lit_fmt(lits)[:6], ok, n.lineno)
+    L.floor("C14.R9", "optional message fields recognised (constructor / class defaults of None, may-be-None assignments)", len(all_opt), 8)
+    L.floor("C14.R9", "desc_hdr implementations analysed", n_fns, 3)
+    L.extra["c14_r9_none_sensitive_uses"] = n_uses
+
+
 def run(L, tier):
     repo = Repo(L.repo)
     r1_ok = L.stage(r1_parser, L, repo)
@@ -630,3 +799,4 @@ def run(L, tier):
     L.stage(r4_attrs, L, repo, es)
     L.stage(r5_capture, L, repo)
     L.stage(r6_c_null, L)
+    L.stage(r9_desc_total, L, repo)
